@@ -2,6 +2,7 @@
 import FractopoModel.Basic.PyPrelude
 import FractopoModel.Basic.Geom
 import FractopoModel.Basic.Wire
+import FractopoModel.Props.C01
 import FractopoModel.Props.C05
 import FractopoModel.Props.C08
 import FractopoModel.Props.C15
